@@ -127,10 +127,27 @@ func (h *c01hist) checkTree(ti int, focus int) {
 	// Full Inorder.
 	i := 0
 	bad := false
+	reads := n <= 40 && h.steps%3 == 1 // read-only calls from inside the loop body
 	t.Inorder(func(e Elem) bool {
 		if i >= n || e != ref.es[i] {
 			bad = true
 			return false
+		}
+		if reads {
+			g, ok := t.Get(Elem{Key: e.Key, Tag: -1})
+			cu := t.Cursor(Elem{Key: e.Key, Tag: -1})
+			if !ok || g != e || t.Len() != n || t.Min() != wmin || t.Max() != wmax || !cu.Valid() || cu.Key() != e {
+				bad = true
+				return false
+			}
+			if i == n/2 {
+				m := 0
+				t.Inorder(func(Elem) bool { m++; return true })
+				if m != n {
+					bad = true
+					return false
+				}
+			}
 		}
 		i++
 		return true
